@@ -69,8 +69,17 @@ Definition opt_str (o : option str) : str := match o with Some s => s | None => 
 Definition is_word_or_end (c : str) : bool := has_match_start re_ell_word_or_end c.
 Definition is_word (c : str) : bool := has_match_start re_ell_word c.
 
-(* the callback reads the OUTER text after the match *)
-Definition ellipsis_repl (mm : mmatch) : M str :=
+(* spans of the template tags of the text being rewritten *)
+Definition tag_spans (text : str) : list (nat * nat) :=
+  map (fun gm => (m_start (snd gm), m_end (snd gm))) (fst (finditer_t re_template_tag text)).
+Definition in_spans (spans : list (nat * nat)) (p : nat) : bool :=
+  existsb (fun se => Nat.leb (fst se) p && Nat.ltb p (snd se)) spans.
+
+(* the callback reads the OUTER text after the match, and the tag spans of the outer text *)
+Definition ellipsis_repl (spans : list (nat * nat)) (mm : mmatch) : M str :=
+  (* match.start(3) is -1 if the group did not take part; then no span contains it *)
+  let inside := match group_start mm 3 with Some ds => in_spans spans ds | None => false end in
+  if inside then ret (m_text mm) else
   match group mm 1, group mm 2, group mm 4, group mm 5 with
   | Some prefix, Some sb, Some punct, Some sa =>
       let remaining := m_after mm in
@@ -83,4 +92,4 @@ Definition ellipsis_repl (mm : mmatch) : M str :=
   | _, _, _, _ => throw TypeError
   end.
 
-Definition ellipses (text : str) : M str := re_subM re_ellipsis ellipsis_repl text.
+Definition ellipses (text : str) : M str := re_subM re_ellipsis (ellipsis_repl (tag_spans text)) text.
